@@ -10,6 +10,7 @@ about and demand that every 64-bit cursor update `p ↦ p + d` satisfies `p.toNa
 and that every offset stored in an ELF32 header field fits 32 bits (`fitsB`).
 -/
 import ElfioVerif.Model.Writer
+import ElfioVerif.Lemmas.WriterSites
 import ElfioVerif.Lemmas.RelocSwap
 namespace ElfioVerif
 open Gen
@@ -83,7 +84,7 @@ theorem setOffset_moved (c : Cls) (s : SecBuf) (v : BitVec 64) : SecBuf.Moved s 
 
 theorem setOffset_offset (c : Cls) (s : SecBuf) (v : BitVec 64) (hi : s.index ≠ 0) (hf : fitsB c v = true) :
     (setOffset c s v).offset = v := by
-  unfold setOffset
+  rw [setOffset_eq]
   have : (s.index != 0) = true := by simpa using hi
   simp only [this, if_true]
   exact truncA_of_fits c v hf
@@ -118,8 +119,9 @@ theorem layoutLoose_eq_spec (c : Cls) (segs : List Seg) (l : List SecBuf) (i : N
   | nil => simp [layoutLoose, looseSpec]
   | cons s rest ih =>
     unfold layoutLoose looseSpec
+    simp only [lsws_advance_eq, setOffsetLoose_eq]
     split
-    · simp only [ih, List.reverse_cons, List.append_assoc, List.singleton_append]
+    · simp only [ih, List.reverse_cons, List.append_assoc, List.singleton_append] <;> rfl
     · simp only [ih, List.reverse_cons, List.append_assoc, List.singleton_append]
 
 /-- no wrap-around (and ELF32 fit) along `layout_sections_without_segments` -/
@@ -807,7 +809,7 @@ theorem layoutSegment_eq (c : Cls) (hdrPhoff : BitVec 64) (phentsize phnum : Bit
       | none => pure none
       | some st => pure (some (st.lay, segFinish c g r.2.1 st))) := by
   unfold layoutSegment segFirstGen segInit segFinish
-  simp only
+  simp only [lseg_has_members0_count, lseg_has_members_count, lseg_fresh_count, decide_eq_true_eq]
   cases g.secs.head? with
   | none =>
     simp only [pure, Except.pure, bind, Except.bind]
@@ -1037,14 +1039,15 @@ theorem save_layout (o : Obj) (os : OStream) (r : SaveRes) (h : save o os = .ok 
       r.obj.segs = res.segs ∧ r.obj.curPos = res.shoff ∧
       r.obj.secs = (residentForSave o.cls o.trans res.secs { st := (preSave o).stream } []).1 := by
   unfold save at h
+  simp only [save_phoff_toNat, save_shoff0_toNat] at h
   cases hh : o.hdr with
   | none =>
     rw [hh] at h
-    simp only [pure, Except.pure, Except.ok.injEq] at h
+    simp only [save_entry_refused_none, if_true, pure, Except.pure, Except.ok.injEq] at h
     subst h; exact absurd hok (by simp)
   | some hdr =>
     rw [hh] at h
-    simp only at h
+    simp only [save_entry_refused_some] at h
     by_cases hf : os.fail = true
     · simp only [hf, if_true, pure, Except.pure, Except.ok.injEq] at h
       subst h; exact absurd hok (by simp)
@@ -2069,7 +2072,7 @@ theorem orderFront_go_perm (n i ns : Nat) (wl out : Array Seg) (fuel : Nat)
           | some sn =>
             rw [hn] at h
             simp only at h
-            cases hn2 : wl[if (sn.offset == 0) = true then ns + 1 else ns]? with
+            cases hn2 : wl[if save_gos_slot_zero sn.offset = true then ns + 1 else ns]? with
             | none => rw [hn2] at h; simp [throw, throwThe, MonadExceptOf.throw] at h
             | some sn2 =>
               rw [hn2] at h
@@ -2345,7 +2348,7 @@ theorem placed_all (o : Obj) (h : Bytes) (res : LayoutRes) (hl : layoutOf o h = 
   | true => exact Or.inr rfl
   | false =>
     left
-    simp only [withoutSegment, Bool.not_eq_false', List.any_eq_true, beq_iff_eq] at hw
+    simp only [withoutSegment_eq, Bool.not_eq_false', List.any_eq_true, beq_iff_eq] at hw
     obtain ⟨g', hg', idx, hidx, rfl⟩ := hw
     obtain ⟨t, ht, hsecs⟩ := final_seg_turn o h res hl hnw hn h0 g' hg'
     obtain ⟨-, -, e3⟩ := layoutOf_trace o h res hl hnw hn h0
@@ -2822,7 +2825,7 @@ def layoutDomB (cov ins : Bool) (sel : Nat → Bool) (o : Obj) (h : Bytes) : Boo
 
 theorem withoutSegment_false_of_mem (segs : List Seg) (g : Seg) (hg : g ∈ segs) (idx : BitVec 16)
     (hi : idx ∈ g.secs) : withoutSegment segs idx.toNat = false := by
-  simp only [withoutSegment, Bool.not_eq_false', List.any_eq_true, beq_iff_eq]
+  simp only [withoutSegment_eq, Bool.not_eq_false', List.any_eq_true, beq_iff_eq]
   exact ⟨g, hg, idx, hi, rfl⟩
 
 /-- the section a turn left at position `k` is the final one, if `k` was generated by then and is a
@@ -3046,14 +3049,15 @@ theorem save_stream (o : Obj) (os : OStream) (r : SaveRes) (h : save o os = .ok 
           ((os.seekp (trApply o.trans 0)).write hdrF)) ∧
       r.os.fail = false := by
   unfold save at h
+  simp only [save_phoff_toNat, save_shoff0_toNat] at h
   cases hh : o.hdr with
   | none =>
     rw [hh] at h
-    simp only [pure, Except.pure, Except.ok.injEq] at h
+    simp only [save_entry_refused_none, if_true, pure, Except.pure, Except.ok.injEq] at h
     subst h; exact absurd hok (by simp)
   | some hdr =>
     rw [hh] at h
-    simp only at h
+    simp only [save_entry_refused_some] at h
     by_cases hf : os.fail = true
     · simp only [hf, if_true, pure, Except.pure, Except.ok.injEq] at h
       subst h; exact absurd hok (by simp)
@@ -3099,7 +3103,7 @@ theorem saveSection_facts (c : Cls) (enc : Enc) (shoff : BitVec 64) (shentsize :
       b.offset.toInt.toNat + ((b.data.getD []).take b.size.toNat).length ≤
         (saveSection c enc shoff shentsize os b).content.length) := by
   unfold saveSection at h ⊢
-  simp only at h ⊢
+  simp only [secWritesData_eq] at h ⊢
   generalize hhp : shoff.toInt + (Int.ofNat shentsize.toNat) * (Int.ofNat b.index) = hp at *
   by_cases hc : (b.stype != BitVec.ofNat 32 SHT_NOBITS && b.stype != BitVec.ofNat 32 SHT_NULL && b.size != 0 && b.data.isSome) = true
   · simp only [hc, if_true] at h ⊢
